@@ -273,13 +273,14 @@ def work_block(args):
     """Executed in a worker process."""
     prop, tier, verif_seed, start, end, max_viol = args
     import faulthandler
-    faulthandler.dump_traceback_later(900, exit=True)
+    watchdog = int(os.environ.get("VERIF_WATCHDOG", "900"))     # per run: re-armed before every run of the block
     from sim import profiles
     profile = profiles.get(prop)
     out = {"runs": 0, "stats": collections.Counter(), "cells": set(), "hashes": set(),
            "violations": [], "sim_time": 0.0, "nops": 0, "skipped": 0, "samples": [],
            "nontrivial_runs": 0, "digests": [], "errors": []}
     for idx in range(start, end):
+        faulthandler.dump_traceback_later(watchdog, exit=True)
         try:
             r = generate(profile, prop, verif_seed, idx, tier)
         except Exception:
